@@ -23,9 +23,11 @@ and per case (`orderOk`): (O) the answers do not depend on the declaration order
 
 Classes in which the unchanged code violates this (decidable classifiers = excluded hypotheses of the
 `_partial` theorems = finding ids named by the judge):
-  F13a `crossMatch`     some declared URL, looked up as a request, is matched by another declared pattern
+  F13a `crossMatchEarlier` (per request; order-sensitive: a declared URL, looked up as a request, is laxly
+        matched by an EARLIER declared different pattern) / `crossMatch` (order independence; any pair)
   F13b `wildDisplaced`  a matching `*` pattern is reached with zero segments or past another pattern's path
-  F13c `boundaryMix`    host/path boundary: a declared pattern follows the URL (or another declared URL) across `/`
+  F13c `boundaryMix`    host/path boundary: a declared pattern follows the URL across `/`
+        (`cfgBoundaryMix`: ... follows another declared URL, for order independence)
   F13d `emptySegment`   the URL has an empty segment (`{p}` accepts it)
   F13e `dupKeys`        the same (method, pattern) is declared twice (the later one silently replaces the earlier)
 -/
